@@ -480,6 +480,17 @@ theorem lremove_some (s : LState I K) (L : List Route) (id : String) (r : Route)
         exact IL.remove_some _ _ id r (h.some k0 b hl) (hU.filter _)
           (List.mem_filter.mpr ⟨hr, hin⟩) hwf.1 hid
 
+theorem lremove_pos (s : LState I K) (L : List Route) (id : String) (h : LRepr IL keysOf s L)
+    (hs : (lRemove I id s).2.isSome = true) : 0 < s.count := by
+  have hex : ∃ r ∈ L, r.id = id := by
+    apply Classical.byContradiction; intro hne
+    have := lremove_none IL keysOf s L id h (fun r hr e => hne ⟨r, hr, e⟩)
+    rw [this] at hs; simp at hs
+  obtain ⟨r, hr, _⟩ := hex
+  have := List.length_pos_of_mem hr
+  have := h.len
+  omega
+
 /-! ### batch_remove -/
 
 theorem lrepr_batch (s : LState I K) (L : List Route) (ids : List String) (h : LRepr IL keysOf s L) :
